@@ -14,7 +14,7 @@ def run(tier):
     run = vlib.Run(PROP, tier)
     thorough = tier == "thorough"
     rng = random.Random(vlib.seed())
-    nplans = 60 if thorough else 24
+    nplans = 70 if thorough else 34
     r = vlib.tlc_ok(vlib.run_tlc("Purity", pcfg(3, "FALSE", "FALSE", nplans), timeout=900), "Purity P=3")
     run.add_tlc(r, "Purity P=3 private scratch: every interleaving, non-interference")
     plans = [v for v in r.json if v.get("ev") == "plan"]
@@ -37,7 +37,7 @@ def run(tier):
     hzr = vlib.go_build(race=True)
     tmp = vlib.scratch("conc")
     events = []
-    jobs = [("plain", hz, 2500, plans), ("race", hzr, 2500, plans[: (20 if thorough else 8)])]
+    jobs = [("plain", hz, 2500, plans), ("race", hzr, 2500, plans[: (34 if thorough else 22)])]
     if thorough:
         jobs.append(("plain-1e6", hz, 125000, plans[:12]))
         jobs.append(("race-1e6", hzr, 125000, plans[:3]))
